@@ -104,6 +104,8 @@ def dump_cases(draw):
     usage = draw(st.sampled_from((None,) * 9 + ('unknown-option', 'no-mib', 'bad-format', 'bad-optlevel')))
     return {'mset': mset, 'world': world, 'victim': draw(st.integers(0, len(names) - 1)), 'format': fmt, 'flags': flags,
             'usage': usage, 'prepopulate': draw(st.booleans()), 'stub': draw(st.booleans()),
+            # the path the requested module would be stored under is taken by a directory
+            'obstacle': world == 'healthy' and fmt != 'null' and usage is None and draw(st.integers(0, 2)) == 0,
             'hashseed': draw(st.sampled_from((0, 0, 1, 7)))}
 
 
@@ -180,6 +182,12 @@ def dump_prop(case, rec):
             os.makedirs(dst)
             with open(os.path.join(dst, 'KEEP-ME.txt'), 'w') as f:
                 f.write('keep')
+        obstacle = None
+        if case.get('obstacle') and ext:
+            obstacle = names[-1]
+            os.makedirs(os.path.join(dst, obstacle + ext))
+            with open(os.path.join(dst, obstacle + ext, 'inside.txt'), 'w') as f:
+                f.write('x')
         pre = listing(dst)
         args = ['--mib-source=' + src, '--mib-source=' + based, '--mib-borrower=' + bor, '--destination-directory=' + dst,
                 '--destination-format=' + case['format']] + list(case['flags'])
@@ -245,7 +253,11 @@ def dump_prop(case, rec):
         # model expectations
         noignore = '--ignore-errors' not in case['flags']
         nodeps = '--no-dependencies' in case['flags']
-        if not bad:
+        if obstacle and not dry:
+            rec.count('dump.obstacle')
+            if obstacle not in cats['failed']:
+                raise Violation('unstorable-module-not-reported-failed', '%s cannot be stored (its path is a directory): %r' % (obstacle, cats), case, extra)
+        elif not bad:
             if trouble:
                 raise Violation('healthy-world-reported-trouble', repr(cats), case, extra)
             if names[-1] not in cats['created']:
@@ -286,7 +298,11 @@ def _imports_bad(byname, n, bad, seen=None):
 REVS = ['199901010000Z', '200001010000Z', '200506070809Z', '201012310000Z', '202002290000Z']
 
 
-def mib_copy_text(name, rev, marker):
+def mib_copy_text(name, rev, marker, nomi=False):
+    if nomi and rev is None:
+        # SMIv1 style: no MODULE-IDENTITY at all
+        return ('%s DEFINITIONS ::= BEGIN\n-- copy %s\n%sNode OBJECT IDENTIFIER ::= { 1 3 6 1 4 1 99 %d }\nEND\n' % (
+            name, marker, name.lower().replace('-', ''), (sum(ord(c) for c in name) % 1000) + 1))
     revs = ''
     if rev is not None:
         revs = ' REVISION "%s" DESCRIPTION "rev %s"' % (rev, marker)
@@ -311,7 +327,8 @@ def copy_cases(draw):
             fname = draw(st.sampled_from((name, name.lower() + '.txt', 'zold%d%d.mib' % (mi, ci), name + '.my')))
             if any(f['dir'] == d and f['file'] == fname for f in files):
                 fname = 'copy%d%d-%s' % (mi, ci, fname)
-            files.append({'module': name, 'rev': rev, 'dir': d, 'file': fname, 'marker': '%d-%d' % (mi, ci)})
+            files.append({'module': name, 'rev': rev, 'dir': d, 'file': fname, 'marker': '%d-%d' % (mi, ci),
+                          'nomi': rev is None and draw(st.booleans())})
     pre = None
     if draw(st.integers(0, 2)) == 0:
         pre = {'module': files[0]['module'], 'rev': draw(st.sampled_from(REVS + [None])), 'marker': 'pre'}
@@ -333,7 +350,7 @@ def copy_prop(case, rec):
     finals = []
     copies = {}
     for f in files:
-        copies.setdefault(f['module'], []).append((f['rev'], mib_copy_text(f['module'], f['rev'], f['marker']).encode()))
+        copies.setdefault(f['module'], []).append((f['rev'], mib_copy_text(f['module'], f['rev'], f['marker'], f.get('nomi')).encode()))
     if case['pre']:
         copies.setdefault(case['pre']['module'], []).append((case['pre']['rev'], mib_copy_text(case['pre']['module'], case['pre']['rev'], 'pre').encode()))
     unique_newest = {}
@@ -350,7 +367,7 @@ def copy_prop(case, rec):
                 d = os.path.join(root, f['dir'])
                 os.makedirs(d, exist_ok=True)
                 with open(os.path.join(d, f['file']), 'w') as fh:
-                    fh.write(mib_copy_text(f['module'], f['rev'], f['marker']))
+                    fh.write(mib_copy_text(f['module'], f['rev'], f['marker'], f.get('nomi')))
             if case['pre']:
                 os.makedirs(dst)
                 with open(os.path.join(dst, case['pre']['module']), 'w') as fh:
